@@ -63,6 +63,7 @@ struct Knobs {
 	int wfEvery		= 7;	// in-callback well-formedness check every n-th eligible callback
 	int palette		= 0;	// rng palette: 0 mixed, 1 hostile (near 0 / near 1 / dyadic boundaries)
 	int zeroUtil	= 1;	// allow zero utilities where the precondition stays satisfied
+	int pInjCancel	= 0;	// per-mille: an injected (StateT<...>) guard cancels the pending transitions
 	int fineUtil	= 0;	// utilities with full 24-bit mantissas (sums and products round) instead of multiples of 1/8
 	int pendq		= 1;	// log isPending vectors in the first guard of single-request rounds
 	int structDump	= 0;	// dump structure() / activityHistory() after each operation
@@ -96,6 +97,7 @@ struct Probe {
 	bool		noCancel = false;	// guards never cancel (first activation)
 	bool		activating = false;	// inside the first activation: the machine is not activated yet
 	int			guardCalls = 0;		// per operation
+	bool		injCancel = false;	// an injected guard of the state being guarded has just cancelled
 	long		lastPendSig = -2;	// per operation: the single pending request the previous guard call saw (a new one = a new round)
 	uint64_t	callbacks = 0, wfChecks = 0, wfViolations = 0;
 	uint64_t	cbCounter = 0;
